@@ -217,10 +217,10 @@ Definition to_conn (seeding : bool) (r : row) : row * vec :=
   (set_dint (negb seeding) (set_pi_h false (set_ph PConn r)), d 1 (-1) +v d 0 1).
 
 (* HandshakeManager::receive_succeeded when ConnectionList::insert returns NULL (list full): release_connection,
-   fd_close, PeerList::disconnected; SocketManager::transfer_event drops the entry *)
+   fd_close, PeerList::disconnected, extension cleanup; SocketManager::transfer_event drops the entry *)
 Definition refuse_row (r : row) : row * vec :=
-  (set_closes (closes r + 1) (set_pi_h false (set_pi_c false (set_pe false (set_fd false (set_ph PNone r))))),
-   d 1 (-1) +v d 18 (-1)).
+  (set_closes (closes r + 1) (set_px false (set_pi_h false (set_pi_c false (set_pe false (set_fd false (set_ph PNone r)))))),
+   d 1 (-1) +v d 18 (-1) +v d 14 (- B (px r))).   (* since 9c37a3e the extension object is cleaned up and deleted *)
 Definition finish_hs (seed full : bool) (r : row) : row * vec :=
   if full then refuse_row r else to_conn seed r.
 
